@@ -13,7 +13,7 @@ from collections import Counter
 
 from props import hist_common
 from vlib import dsops, oracles
-from vlib.core import Stage
+from vlib.core import Stage, hang_is_violation
 
 ID = "C08"
 LEVEL = "exploration"
@@ -143,5 +143,8 @@ STAGES = [
               "quick": 500,
               "thorough": 12000
           },
-          fork=True)
+          fork=True,
+          timeout=150,
+          timeout_violation=hang_is_violation(
+              "session-completes", "a writing session with legal inputs (or reading back after it)"))
 ]
